@@ -1410,6 +1410,38 @@ def rule_r11(ctx):
     return rr
 
 
+def rule_r12(ctx):
+    """expr_transf is for USER expressions.  Applied to a node the converter built itself (the
+    `slice(...)` call made from a user Slice), the converter's own names (`slice`) are looked up in
+    the scope like user names: NamespaceClass.get_load_name asks the class's symbol table
+    unconditionally, and the table has no such symbol (KeyError during conversion); where the lookup
+    succeeds, a class attribute or nonlocal variable of that name captures the converter's builtin."""
+    rr = RuleResult("C06-R12", "the rewriter is applied to user expressions only (no converter-built name is resolved like a user name)")
+    rr.exhaustive = True
+    rr.floor = 10
+    T = ctx.tmpl
+    seen = set()
+    for ci, kinds, entry in T.all_pending():
+        rr.instances += 1
+        for pr in entry.ok_paths():
+            kind = kinds_label(pr.extra["node"].kinds)
+            evs, w = path_events(pr)
+            for e in evs:
+                if e.kind == "load-const" and e.nsp is not None:
+                    key = (kind, e.path)
+                    if key in seen:
+                        continue
+                    seen.add(key)
+                    rr.fail(
+                        f"C06-R12|{kind}|{e.path}|converter-name-through-namespace",
+                        f"{ci.name} ({e.site}): the converter-built name `{e.path}` lies inside a node that is handed to expr_transf, so it is resolved like a user name in {e.nsp}: in a class body the class's symbol table is asked for `{e.path}` and raises KeyError (`class A: x[1:3] = v` / `x[1:3] += v` stop the conversion with KeyError: 'slice'); elsewhere a user variable of that name captures it",
+                        where=str(e.site), what=f"{kind}|{e.path}",
+                    )
+    if not seen:
+        rr.ok("templates", sample={"rule": "C06-R12", "verdict": "every rewritten node is a user expression"})
+    return rr
+
+
 def rule_r8(ctx):
     from .common import cached
     from .exprcopy import transf_entry_paths
@@ -1452,5 +1484,5 @@ def rule_c14r1(ctx):
 RULES = [
     ("C14-R1", rule_c14r1), ("C06-R8", rule_r8), ("C06-R9", rule_r9), ("C06-R10", rule_r10), ("C06-R11", rule_r11),
     ("C06-R1", rule_r1), ("C06-R2", rule_r2), ("C06-R3", rule_r3), ("C06-R4", rule_r4),
-    ("C06-R5", rule_r5), ("C06-R6", rule_r6), ("C06-R7", rule_r7),
+    ("C06-R5", rule_r5), ("C06-R6", rule_r6), ("C06-R7", rule_r7), ("C06-R12", rule_r12),
 ]
